@@ -386,6 +386,12 @@ func (k *classifier) walk(ns []Node, cx classCtx) {
 			if cx.inContent {
 				k.add("slot-in-slot-content")
 			}
+			if n.If != "" {
+				k.add("slot-own-v-if")
+			}
+			if n.For != nil {
+				k.add("slot-own-v-for")
+			}
 			if len(n.SProps) > 0 {
 				k.add("slot-props")
 			}
